@@ -12,7 +12,7 @@ from . import reportlib
 from .common import EARN_TYPES, Hist, country_of, make_cfg, method_tree, slot
 
 PROPS = ("C14", "C16")
-BUDGET = {"quick": 1500, "thorough": 5400}
+BUDGET = {"quick": 1500, "thorough": 1500}
 CHUNK = 40
 
 US_MAP = {
